@@ -482,7 +482,12 @@ def lookup_oracle(cell):
             e = lk['expect']
             got = 'ERR' if False else ('T:%s:%s' % (typ, ver) if found else 'F')
             if e != got and e != 'ERR':
-                fails.append({'kind': 'policy', 'lookup': i, 'expected': e, 'got': got, 'why': lk.get('why', '')})
+                kind = 'fallback-override-not-found' if lk.get('override_fallback') else 'policy'
+                fails.append({'kind': kind, 'lookup': i, 'expected': e, 'got': got, 'why': lk.get('why', '')})
+    # the fallback subproject overrides the name, yet the (required) lookup that configured it failed
+    if lookups and lookups[0].get('override_fallback') and not obs and status == 'ERR':
+        fails.append({'kind': 'fallback-override-not-found', 'lookup': 0, 'expected': lookups[0]['expect'], 'got': 'ERR',
+                      'why': lookups[0].get('why', '')})
     # a lookup that the policy says must fail
     for i, lk in enumerate(lookups):
         if lk.get('expect') == 'ERR':
